@@ -1,53 +1,40 @@
-(* GenC20s.v — LATE file of C20 (compiled in parallel with GenC20.v, GenC20b.v, GenC20p.v): the regenerated Set constructor IS
-   the model Facade.v for every element type and every argument list (with and without a collator; Go array, sequence,
-   source). *)
+(* GenC20s.v — LATE file of C20 (compiled in parallel with the other GenC20*.v): the regenerated Set constructor, first half:
+   the simulation of its argument loop and the decision cascade WITH a collator (Go array, sequence, source, nothing). *)
 From Coq Require Import String.
 From Verif Require Import Base Sorter Value Seq Coll Pool PoolRun Params SetProofs AssocProofs Facade FacadeProofs ModuleLang ModuleSem ModuleFacts ModuleTactics GenModule.
 Open Scope Z_scope.
 Open Scope list_scope.
-Local Opaque class_ctor as_type fold_loop ranker rk_default set_add_all set_add convert_all convert_pairs array_fill zero_of.
+Local Opaque class_ctor as_type fold_loop ranker rk_default set_add_all set_add convert_all convert_pairs array_fill zero_of parsed_items.
 
-Definition opt_coll (o : option nat) : mval := match o with Some c => MArgV (ACollator c) | None => MNone end.
-Definition env_set (s : slots) (scr : list mval) : menv :=
-  [MArgV ANotation; opt_slice (s_values s); opt_seq (s_seq s); src_of s; opt_coll (s_coll s)] ++ scr.
+(* the number of scratch locals of the regenerated Set constructor (its locals beyond notation, values, sequence, source, collator) *)
+Definition Kset : nat := (g_locals gen_Set - 5)%nat.
 
-Lemma set_step : forall args0 tk tv f s scr a, size_ok a -> length scr = 11%nat ->
-  exists scr', length scr' = 11%nat /\
+Lemma set_step : forall args0 tk tv f s scr a, size_ok a -> length scr = Kset ->
+  exists scr', length scr' = Kset /\
     exec args0 (10 + f) (with_argument (ctx0 tk tv) a) (env_set s scr) (loop_body gen_Set) =
     match accept FSet s a with Some s' => RNormal (env_set s' scr') | None => RPanic end.
-Proof. intros args0 tk tv f s scr a Ha L. explode scr 11. step_tac scr a Ha 11 11%nat. Qed.
+Proof. intros args0 tk tv f s scr a Ha L. unfold Kset in *. explode_dyn scr L. step_tac scr a Ha 0 (g_locals gen_Set - 5)%nat. Qed.
 
-
-Lemma set_post : forall args0 tk tv f s scr, length scr = 11%nat ->
+Lemma set_post_collator : forall args0 tk tv f s scr c, length scr = Kset -> s_coll s = Some c ->
   result_of (exec args0 (30 + f) (ctx0 tk tv) (env_set s scr) (post_body gen_Set)) =
   out_map FO (out_map FObj (finish_set tv s)).
 Proof.
-  intros args0 tk tv f s scr L. explode scr 11. destruct s as [sz hs vals sq txt prs cl asc mp asq].
+  intros args0 tk tv f s scr c L Hc. unfold Kset in L. explode_dyn scr L. destruct s as [sz hs vals sq txt prs cl asc mp asq].
+  cbn [s_coll] in Hc. subst cl.
   unfold env_set, src_of, opt_slice, opt_seq, opt_coll. cbn [s_size s_has_size s_values s_seq s_text s_parsed s_coll app]. norm_body.
-  destruct cl as [c|].
-  - (* with a collator *)
-    destruct vals as [[|?v ?l]|]; [ | | ].
-    2:{ (* values: for _, value := range values { set.AddValue(value) } *)
-      cbn [plus]; timeout 60 to_loop.
-      timeout 20 (match goal with |- context [fold_loop ?st ?its ?env] => erewrite (set_range_loop _ _ _ _ _ _ st its (fun x e => eq_refl)); [ | cbn; congruence | cbn; lia | cbn; lia | reflexivity ] end).
-      all: after_loop. }
-    all: destruct sq as [?l|]; [leaf|].
-    all: destruct txt as [|?ch ?t]; [leaf|].
-    all: destruct prs as [?pv|]; [|leaf].
-    all: seq_cases2 pv.
-    all: set_loop.
-  - (* without a collator *)
-    destruct vals as [[|?v ?l]|]; [ | leaf | ].
-    all: destruct sq as [?l|]; [leaf|].
-    all: destruct txt as [|?ch ?t]; [leaf|].
-    all: destruct prs as [?pv|]; [|leaf].
-    all: seq_cases2 pv.
-    all: set_loop.
+  destruct vals as [[|?v ?l]|]; [ | | ].
+  2:{ (* values: for _, value := range values { set.AddValue(value) } *)
+    cbn [plus]; timeout 60 to_loop.
+    timeout 20 (match goal with |- context [fold_loop ?st ?its ?env] => erewrite (set_range_loop _ _ _ _ _ _ st its (fun x e => eq_refl)); [ | cbn; congruence | cbn; lia | cbn; lia | reflexivity ] end).
+    all: after_loop. }
+  all: destruct sq as [?l|]; [leaf|].
+  all: destruct txt as [|?ch ?t]; [leaf|].
+  all: destruct prs as [?pv|]; [|leaf].
+  (* the parsed collection: a sequence of items, or the assertion to Sequential[any] fails *)
+  all: cbn [plus]; timeout 60 to_loop; timeout 30 rhs_open_keep.
+  all: destruct (parsed_items (PColl pv)) as [items|]; [|timeout 60 fin2].
+  all: timeout 60 to_loop.
+  all: timeout 20 (match goal with |- context [fold_loop ?st ?its ?env] => erewrite (set_add_loop _ _ _ _ _ _ st its (fun x e => eq_refl)); [ | cbn; congruence | cbn; lia | cbn; lia | reflexivity ] end).
+  all: after_loop.
   Unshelve. all: try exact O. all: try exact [].
 Qed.
-
-Theorem gen_Set_is_the_model : forall tk tv args, Forall size_ok args ->
-  run_ctor gen_Set tk tv args = out_map FO (facade FSet tk tv args).
-Proof. ctor_main gen_Set FSet env_set 11%nat set_step set_post. Qed.
-
-Print Assumptions gen_Set_is_the_model.
